@@ -56,6 +56,76 @@ def run_rule(run, rule_id="F-VIEW"):
     _run_sites_rule(run, rule_id)
     from . import viewoffsets
     viewoffsets.run_rule(run, "F-VIEW.offsets")
+    run_kind_rule(run, "F-VIEW.kind")
+
+
+def run_kind_rule(run, rule_id="F-VIEW.kind"):
+    run.begin(
+        rule_id,
+        "the typed views of a qualified object (.unsigned / .signed / .bitvector) have exactly the requested kind: the "
+        "object itself is returned only when it already IS of that kind, otherwise a view of the value's sibling type "
+        "over the same root and reference (abstract evaluation of the three getters over the kind lattice)",
+        floor=9,
+    )
+    from ..absint import Interp, Reject
+
+    TQ = "cohdl/_core/_type_qualifier.py"
+    tq = run.idx.mod(TQ)
+
+    class _BV:
+        def __init__(self, store=None):
+            self.store = store if store is not None else object()
+
+        unsigned = property(lambda self: _U(self.store))
+        signed = property(lambda self: _S(self.store))
+        bitvector = property(lambda self: _BV(self.store))
+
+    class _U(_BV):
+        pass
+
+    class _S(_BV):
+        pass
+
+    class _View:
+        def __init__(self, kind, value, ref, root):
+            self.kind, self.value, self.ref, self.root = kind, value, ref, root
+
+    class _Q:
+        def __getitem__(self, kind):
+            return lambda value, _ref_spec=None, _root=None: _View(kind, value, _ref_spec, _root)
+
+    class _Me:
+        pass
+
+    kinds = {"bitvector": _BV, "unsigned": _U, "signed": _S}
+    for prop, want in kinds.items():
+        getters = [g for g in tq.funcs_named(f"TypeQualifier.{prop}") if not any((dotted(d) or "").endswith(".setter") for d in g.node.decorator_list)]
+        if not getters:
+            raise AnalysisError(f"TypeQualifier.{prop}: getter not found")
+        g = getters[0]
+        for hname, have in kinds.items():
+            me = _Me()
+            me._Wrapped = have
+            me._value = have()
+            me._ref_spec = ["ref"]
+            me._root = object()
+            me.qualifier = _Q()
+            prims = {"issubclass": lambda c, b: issubclass(c, b), "Signed": _S, "Unsigned": _U, "BitVector": _BV, "type": type,
+                     "isinstance": lambda v, t: isinstance(v, t) if isinstance(t, (type, tuple)) else False}
+            try:
+                got = Interp(tq, prims).call_node(g.node, [me], {}, __import__("sa.absint", fromlist=["Env"]).Env())
+            except Reject as e:
+                got = f"rejected: {e}"
+            if got is me:
+                ok = have is want
+                found = f"the {hname} object itself"
+            elif isinstance(got, _View):
+                ok = got.kind is want and isinstance(got.value, want) and type(got.value) is want and got.value.store is me._value.store and got.root is me._root and got.ref is me._ref_spec
+                found = f"view of kind {[k for k, v in kinds.items() if v is got.kind] or got.kind}" + ("" if got.root is me._root and got.ref is me._ref_spec else " with another root/reference")
+            else:
+                ok, found = False, str(got)[:60]
+            run.ob(ok, f"TypeQualifier.{prop}", file=tq.rel, line=g.node.lineno, detail=f"of-{hname}", expected=f"a {prop} view (the object itself only if it is {prop} already)", found=found, sample=(prop, hname) == ("signed", "unsigned"))
+    run.end()
 
 
 def _run_sites_rule(run, rule_id="F-VIEW"):
